@@ -36,6 +36,11 @@ fn main() {
     if tc.contains("pub fn stopped_at") {
         println!("cargo:rustc-cfg=hook_stopped_at");
     }
+    // Hook H4 (the time limit reads as expired from poll k on) came later still.
+    println!("cargo::rustc-check-cfg=cfg(hook_expiry)");
+    if tc.contains("pub fn arm_expiry") {
+        println!("cargo:rustc-cfg=hook_expiry");
+    }
     // The completion latch between the search thread and `stop` is exercised directly by C05 if it
     // still has the shape new / set / wait / reset.
     println!("cargo::rustc-check-cfg=cfg(latch_api)");
